@@ -56,6 +56,24 @@ def main():
         if bad:
             print("GATE:", bad)
         sys.exit(0 if ok and not bad else 1)
+    if a.pid == "coqchk":
+        # independent re-check of every compiled property file (and everything it depends on) + axiom summary
+        import re
+        from concurrent.futures import ThreadPoolExecutor
+        mods = ["RL4CO.Properties." + p.stem for p in sorted((common.THEORIES / "Properties").glob("C*.v"))]
+
+        def one(m):
+            rc, out = common.sh("coqchk -silent -o -Q theories RL4CO %s" % m, cwd=common.COQ, timeout=3600)
+            ax = re.search(r"\* Axioms:(.*?)\n\s*\n\* Constants", out, re.S)
+            return m, rc, re.sub(r"\s+", " ", ax.group(1)).strip() if ax else out[-400:]
+        with ThreadPoolExecutor(max_workers=6) as ex:
+            res = list(ex.map(one, mods))
+        (common.VERIF / "audit").mkdir(exist_ok=True)
+        (common.VERIF / "audit" / "coqchk.json").write_text(json.dumps(
+            [{"module": m, "rc": rc, "axioms": ax} for m, rc, ax in res], indent=1))
+        for m, rc, ax in res:
+            print(m, "rc=%d" % rc, ax[:300])
+        sys.exit(1 if any(rc for _, rc, _ in res) else 0)
     if a.pid == "all":
         rcs = {}
         man = json.load(open(common.VERIF / "MANIFEST.json"))
